@@ -13,7 +13,7 @@ RULE = ('one run = 1-12 connections on one real executor (local queue or remote 
         'or normal completion), sequentially or overlapping; after the last one the simulated descriptor table, '
         'the selector (Python map and kernel interest set) and the executor registries must be back to '
         'baseline; non-trivial = at least one connection ended by an abort; distinct = distinct event-log digests')
-PROBES = ['front_tls', 'failed_front_handshake', 'forward', 'tunnel', 'web', 'static', 'reverse', 'rejected', 'client_close', 'client_reset',
+PROBES = ['threaded', 'upload_reset', 'front_tls', 'failed_front_handshake', 'forward', 'tunnel', 'web', 'static', 'reverse', 'rejected', 'client_close', 'client_reset',
           'client_shut_wr', 'upstream_close', 'upstream_reset', 'connect_fail', 'errno_injected', 'idle_timeout',
           'normal', 'remote_executor', 'repeated', 'overlapping', 'fd_reused', 'gc_closed_socket']
 COMPONENTS = {
@@ -54,7 +54,7 @@ def setup_worker(job: Dict[str, Any]) -> None:
 
 def run_one(tape: Any, cfg: Dict[str, Any], forbid: FrozenSet[str] = frozenset()) -> Result:
     from ..actors import Origin, Peer
-    from ..harness import L1, L1R, make_flags, scratch_dir
+    from ..harness import L1, L1R, L3, make_flags, scratch_dir
     from ..kernel import World
     from ..plugins import make_reverse_plugin, make_web_route_plugin
     from .. import scen
@@ -66,6 +66,7 @@ def run_one(tape: Any, cfg: Dict[str, Any], forbid: FrozenSet[str] = frozenset()
     with World(tape) as w:
         scen.sched_swarm(w, tape)
         remote = g.feature('remote_executor', 0.3)
+        threaded = (not remote) and g.feature('threaded', 0.15)     # one handler thread per connection, its own selector and loop
         timeout_mode = g.feature('idle_timeout', 0.25)
         opts = scen.proxy_opts(tape, 16)
         route = make_web_route_plugin(1, r'/web', lambda tg: b'web-reply:' + tg + b'x' * 50)
@@ -81,13 +82,15 @@ def run_one(tape: Any, cfg: Dict[str, Any], forbid: FrozenSet[str] = frozenset()
             opts.pop('client_recvbuf_size', None)
         static_dir = os.path.join(scratch_dir(), 'static10')
         files_before = scen.real_fds_under(static_dir)
-        flags = make_flags(['--enable-reverse-proxy'], threadless=True, local_executor=0 if remote else 1,
+        flags = make_flags(['--enable-reverse-proxy'], threadless=not threaded, threaded=threaded, local_executor=0 if remote else 1,
                            timeout=2 if timeout_mode else 3600, enable_web_server=True, enable_static_server=True,
                            static_server_dir=static_dir, min_compression_length=[20, 1 << 30][tape.draw(2, 'mincomp')],
                            plugins=[route, rp], basic_auth=None, **opts)
-        h: Any = L1R(w, flags) if remote else L1(w, flags)
+        h: Any = L1R(w, flags) if remote else (L3(w, flags) if threaded else L1(w, flags))
         if remote:
             w.probe('remote_executor')
+        if threaded:
+            w.probe('threaded')
         baseline = set(w.main_proc.fds)
         faults = scen.setup_faults(w, tape, {
             'send': ['ECONNRESET', 'EPIPE', 'ETIMEDOUT', 'ENOBUFS', 'short', 'eagain'],
@@ -126,6 +129,11 @@ def run_one(tape: Any, cfg: Dict[str, Any], forbid: FrozenSet[str] = frozenset()
                 o = Origin(w, ip, port, up_script, name='up%s' % ip[-1], mode=rmode)
             o.remote.faultable = faults
             origins.append(o)
+        # (for the upload_reset role: never reads, answers, waits until the proxy has taken the answer, resets)
+        ANS = b'A' * 6000
+        origins.append(Origin(w, '10.0.0.4', 443, lambda i: [('wait_rx', lambda p: p.st is not None and len(p.st.rx) > 0),
+                                                             ('send', ANS, 'burst'), ('wait_drain',), ('sleep', 0.05), ('reset',)],
+                              name='upr', cap_in=1024, reading=False))
         host = b'up.example' if up_kind != 'noresolve' else b'nosuch.example'
         nconn = 1 + tape.weighted([3, 2, 2, 1, 1, 1], 'nconn') * (1 + tape.draw(2, 'nconn2'))
         same = tape.coin(0.5, 'same-script')
@@ -143,7 +151,9 @@ def run_one(tape: Any, cfg: Dict[str, Any], forbid: FrozenSet[str] = frozenset()
             if same and first is not None:
                 role, cut_frac, ending = first
             else:
-                role = ['forward', 'tunnel', 'web', 'static', 'reverse', 'rejected'][tape.draw(6, 'role')]
+                role = ['forward', 'tunnel', 'web', 'static', 'reverse', 'rejected', 'upload_reset'][tape.weighted([3, 3, 3, 3, 3, 3, 2], 'role')]
+                if role == 'upload_reset' and not g.note('upstream_write_failure'):
+                    role = 'tunnel'
                 cut_frac = tape.draw(5, 'cut')         # 0 = complete script, 1..4 = cut inside
                 ending = ['normal', 'client_close', 'client_reset', 'client_shut_wr', 'idle'][tape.draw(5, 'ending')]
                 first = (role, cut_frac, ending)
@@ -155,6 +165,8 @@ def run_one(tape: Any, cfg: Dict[str, Any], forbid: FrozenSet[str] = frozenset()
             states.add(hash((role, cut_frac, ending, remote, up_kind)) & 0xffffffff)
             if ending != 'normal' or cut_frac:
                 aborted = True
+            # (a quarter of the web-server and reverse-proxy requests carry a User-Agent that is not UTF-8)
+            oddua = b'User-Agent: caf\xe9/1.0\r\n' if tape.coin(0.25, 'odd-ua') else b''
             if role == 'forward':
                 # (a quarter of the forward requests carry a byte that is not UTF-8 in the target: fine on the wire, awkward for
                 # whatever turns the request into text when the connection ends)
@@ -166,8 +178,13 @@ def run_one(tape: Any, cfg: Dict[str, Any], forbid: FrozenSet[str] = frozenset()
                 req = b'CONNECT ' + host + b':443 HTTP/1.1\r\nHost: ' + host + b':443\r\n\r\n'
                 full = [('send', req, 'burst'), ('wait_rx', lambda p: b'\r\n\r\n' in p.rx), ('send', b'ping', 'burst'),
                         ('wait_rx', lambda p: p.rx.endswith(b'pong'))]
+            elif role == 'upload_reset':
+                # the connection ends through a failing write towards the upstream, with the answer still queued for the client
+                req = b'CONNECT 10.0.0.4:443 HTTP/1.1\r\nHost: 10.0.0.4:443\r\n\r\n'
+                full = [('send', req, 'burst'), ('wait_rx', lambda p: b'\r\n\r\n' in p.rx), ('pause_read',),
+                        ('send', b'U' * 20000, 'burst'), ('sleep', 1.0), ('resume_read',), ('wait_eof',)]
             elif role == 'web':
-                req = b'GET /web HTTP/1.1\r\nHost: l\r\nX-Req-Tag: a\r\n\r\n'
+                req = b'GET /web HTTP/1.1\r\nHost: l\r\nX-Req-Tag: a\r\n' + oddua + b'\r\n'
                 full = [('send', req, 'burst'), ('wait_rx', lambda p: count_responses(bytes(p.rx)) >= 1),
                         ('send', req, 'burst'), ('wait_rx', lambda p: count_responses(bytes(p.rx)) >= 2)]
             elif role == 'static':
@@ -176,7 +193,7 @@ def run_one(tape: Any, cfg: Dict[str, Any], forbid: FrozenSet[str] = frozenset()
                 req = b'GET ' + spath + b' HTTP/1.1\r\nHost: l\r\n\r\n'
                 full = [('send', req, 'burst'), ('wait_eof',)]
             elif role == 'reverse':
-                req = b'GET /rev HTTP/1.1\r\nHost: l\r\n\r\n'
+                req = b'GET /rev HTTP/1.1\r\nHost: l\r\n' + oddua + b'\r\n'
                 full = [('send', req, 'burst'), ('wait_rx', lambda p: count_responses(bytes(p.rx)) >= 1),
                         ('send', req, 'burst'), ('wait_rx', lambda p: count_responses(bytes(p.rx)) >= 2)]
             else:
@@ -207,6 +224,8 @@ def run_one(tape: Any, cfg: Dict[str, Any], forbid: FrozenSet[str] = frozenset()
                 script += part
             else:
                 script += full
+            if role == 'upload_reset':
+                script.append(('resume_read',))        # (a cut may have removed it: the client must not end up deaf)
             if ending == 'normal' or ending == 'client_close':
                 script.append(('close',))
             elif ending == 'client_reset':
@@ -216,7 +235,10 @@ def run_one(tape: Any, cfg: Dict[str, Any], forbid: FrozenSet[str] = frozenset()
             else:
                 script += [('wait_eof',), ('close',)]      # idle: wait for the reaper
             c = Peer(w, 'c%d' % k, script, read_mode='chunky')
-            c.connect_fn = h.connector(cap_to_proxy=scen.pick_cap(tape, 64, 'ccap'), cap_to_client=scen.pick_cap(tape, 16, 'ccap2'),
+            ccap = scen.pick_cap(tape, 64, 'ccap')
+            if role == 'upload_reset':
+                ccap = 65536        # the upload must fit the socket: the client writes it in one go and only then reads on
+            c.connect_fn = h.connector(cap_to_proxy=ccap, cap_to_client=scen.pick_cap(tape, 16, 'ccap2'),
                                        faultable=faults)
             clients.append(c)
             if not overlap:
@@ -237,7 +259,8 @@ def run_one(tape: Any, cfg: Dict[str, Any], forbid: FrozenSet[str] = frozenset()
 
         w.settle(4.0 if timeout_mode else 2.5, 600.0)
         w.select_hook = None
-        scen.executor_check(w, h)
+        if not threaded:
+            scen.executor_check(w, h)
         # ---- final accounting ------------------------------------------------------------------
         if not w.failures and not w.hung:
             clients_done = all(c.finished() for c in clients)
@@ -249,12 +272,19 @@ def run_one(tape: Any, cfg: Dict[str, Any], forbid: FrozenSet[str] = frozenset()
             for c in clients:
                 c.st = None
             gc.collect()
-            ex = h.ex
+            ex = h.ex if not threaded else None
             leaked = sorted(set(w.main_proc.fds) - baseline)
             if leaked:
                 w.fail('descriptor_leak', ','.join(sorted({w.main_proc.fds[f].label.split(':')[0].rstrip('0123456789') for f in leaked})),
                        '%d descriptors still open after %d connections: %s' %
                        (len(leaked), nconn, [(f, w.main_proc.fds[f].label) for f in leaked][:6]))
+            elif threaded:
+                alive = [t.name for t in h.threads if t.is_alive()]
+                dead = [wk for wk in h.works if getattr(wk, 'selector', None) is not None and getattr(wk.selector, '_map', None) is not None]
+                if alive:
+                    w.fail('thread_left_running', 'threaded', 'handler threads still running after their connections ended: %r' % alive)
+                elif dead:
+                    w.fail('selector_leak', 'threaded', '%d handler(s) never closed their selector' % len(dead))
             elif ex.works:
                 w.fail('registry_leak', 'works', 'executor still tracks works %r' % list(ex.works))
             elif ex.registered_events_by_work_ids:
